@@ -130,7 +130,7 @@ def S3(vc):
 # =============================================================================================== U2
 @harness('U2', targets='kopf._core.reactor.running.startup_cleanup_activities', props=['C20'],
          clauses=['startup_then_started_then_ready', 'failed_startup_releases_nothing', 'cleanup_after_all_other_root_tasks',
-                  'core_tasks_always_stopped', 'errors_propagate'],
+                  'core_tasks_always_stopped', 'errors_propagate', 'vault_closed_after_cleanup'],
          canaries=['canary.always_ready', 'canary.always_cleans_up'],
          trusted=['activities.run_activity by contract U2a', 'aiotasks.wait/stop/reraise by contracts S4w/S4/S4r',
                   'aioadapters.raise_flag raises the given flag', 'a fresh asyncio.Event().wait() never returns, it can only be cancelled'])
@@ -147,7 +147,10 @@ def U2(vc):
       * run_activity(CLEANUP) runs only after aiotasks.wait() over exactly all other root tasks (the
         live list at that moment, minus this task) has returned and after the core tasks were stopped;
       * once past the first statement, the core tasks are stopped on every path (finally);
-      * an error of the startup/cleanup activity or of a core task is not swallowed.
+      * an error of the startup/cleanup activity or of a core task is not swallowed;
+      * the operator-wide cleanup "that garbage collection cannot do" (docstring): the vault (the API sessions) is
+        closed once after the cleanup activity has returned, and never before the cleanup handlers -- the last
+        activity that may use the API -- were run.
     """
     me = Opaque('this-task')
     t1, t2, late = Opaque('root1'), Opaque('root2'), Opaque('root-added-later')
@@ -282,6 +285,12 @@ def U2(vc):
         vc.ensure('errors_propagate', escaped is errs[C])
     if cleanups and C not in errs and 'run_activity:cleanup' not in cancelled_at:
         vc.ensure('errors_propagate', escaped is None)
+    # -- the credentials outlive everything that may still talk to the API (the cleanup handlers are the last such thing)
+    closes = [i for i, n in enumerate(names) if n == 'vault.close']
+    i_cleanup_ok = next((i for i, a in returned if a is C), None)
+    vc.ensure('vault_closed_after_cleanup', len(closes) <= 1 and all(cleanups and cleanups[0] < i for i in closes))
+    if i_cleanup_ok is not None:
+        vc.ensure('vault_closed_after_cleanup', len(closes) == 1 and i_cleanup_ok < closes[0])
     return ('escaped', type(escaped).__name__, len(cleanups))
 
 
@@ -312,13 +321,28 @@ FACTORIES = {
 }
 
 
-@harness('U1', targets='kopf._core.reactor.running.spawn_tasks', props=['C20'],
-         clauses=['api_tasks_guarded_by_started_flag', 'only_three_unguarded', 'every_coroutine_becomes_one_task',
-                  'tasks_are_tracked', 'lifecycle_tasks_present', 'no_tasks_on_invalid_arguments', 'gate_closed_on_return'],
-         canaries=['canary.all_guarded', 'canary.never_rejects'],
+U1_OLD = ['api_tasks_guarded_by_started_flag', 'only_three_unguarded', 'every_coroutine_becomes_one_task',
+          'tasks_are_tracked', 'lifecycle_tasks_present', 'no_tasks_on_invalid_arguments', 'gate_closed_on_return']
+# the operator's activities every run needs (health reporter: only with a liveness endpoint; orchestrator xor command)
+REQUIRED = {'authenticator': 'C12', 'poster': 'C20', 'condition_chain': 'C18', 'validating_configuration_manager': 'C18',
+            'mutating_configuration_manager': 'C18', 'admission_webhook_server': 'C18',
+            'resource_observer': 'C19', 'namespace_observer': 'C19'}
+
+
+@harness('U1', targets='kopf._core.reactor.running.spawn_tasks', props=['C20', 'C12', 'C13', 'C17', 'C18', 'C19'],
+         clauses=U1_OLD + ['operator_tasks_present', 'collaborators_given_or_default', 'context_set_before_tasks',
+                           'indices_prepared_before_startup', 'peering_settings_from_arguments', 'scope_reaches_observer',
+                           'signals_hooked_in_main_thread_only'],
+         clause_props={**{c: ['C20'] for c in U1_OLD},
+                       'operator_tasks_present': ['C20', 'C12', 'C18', 'C19'], 'collaborators_given_or_default': ['C20'],
+                       'context_set_before_tasks': ['C20', 'C12'], 'indices_prepared_before_startup': ['C20', 'C17'],
+                       'peering_settings_from_arguments': ['C20', 'C13'], 'scope_reaches_observer': ['C20', 'C13', 'C19'],
+                       'signals_hooked_in_main_thread_only': ['C20']},
+         canaries=['canary.all_guarded', 'canary.never_rejects', 'canary.always_health_reporter', 'canary.always_clusterwide'],
          trusted=['aiotasks.create_guarded_task(flag=f) == create_task(guard(coro, flag=f)) (two lines; guard by contract S3)',
-                  'asyncio.create_task starts the coroutine unconditionally',
-                  'which coroutines are API-capable: every one except the three named in EXEMPT (statement of C20)'])
+                  'asyncio.create_task starts the coroutine unconditionally, in a COPY of the creator\'s context taken at creation',
+                  'which coroutines are API-capable: every one except the three named in EXEMPT (statement of C20)',
+                  'loop.add_signal_handler raises RuntimeError outside the main thread (asyncio docs; docs/embedding.rst)'])
 def U1(vc):
     """
     spawn_tasks: every coroutine the operator starts -- whatever function made it, including ones this
@@ -330,7 +354,27 @@ def U1(vc):
     core_tasks list owned by startup_cleanup_activities, whose root_tasks is the returned (live) list.
     The tasks the shutdown clauses of C20 rely on exist (startup/cleanup, stop-flag checker, daemon
     killer, the orchestrator or the command).  Contradictory arguments are rejected before any task.
+
+    Further (what the contracts of the spawned activities take as their preconditions):
+      * the activities the other properties live in are all there, once each: the authenticator (C12: re-authentication),
+        the event poster, the admission chain/managers/server (C18), the resource and namespace observers (C19); the
+        health reporter exactly when a liveness endpoint is given (docs/probing.rst), serving that endpoint;
+      * every collaborator (lifecycle, registry, settings, memories, indexers/indices, insights, identity, vault, memo) an
+        activity receives is the one GIVEN to spawn_tasks, or -- when omitted (None: what kopf.run() passes by default)
+        -- one and the same non-None default for all activities; for the registry and the lifecycle THE default ones
+        (registries.get_default_registry(), lifecycles.get_default_lifecycle(): where the decorators register);
+      * the operator's vault and settings are put into the context variables (auth.vault_var: what every API call
+        reads, contract A-series of c12; posting.settings_var) BEFORE the first task is created (tasks copy the context);
+      * the indexers are pre-populated from the registry's indexing handlers before anything can run (the first
+        suspension), so that the startup handlers see the (empty) indices (docs/indexing.rst; C17);
+      * peering_name / standalone / priority, when given, override settings.peering (name + mandatory, standalone,
+        priority: docs/peering.rst, docs/cli.rst), and leave them alone when omitted; settings.peering.clusterwide
+        and the namespace observer get the effective scope: cluster-wide iff asked for or no namespace is given
+        (the backward-compatibility rule the FutureWarning announces), and the given namespaces (or the legacy one);
+      * OS signal handlers (SIGINT, SIGTERM -> the signal flag of the stop-flag checker) are installed in the main
+        thread and not attempted elsewhere (docs/embedding.rst: an operator in a thread must still start).
     """
+    import functools, signal
     clusterwide = vc.bool('clusterwide')
     namespaces = [[], ['ns1']][vc.nondet(2, 'namespaces given?')]
     namespace = [None, 'legacy-ns'][vc.nondet(2, 'namespace= (deprecated) given?')]
@@ -340,7 +384,8 @@ def U1(vc):
     stop_flag = Opaque('stop_flag') if vc.nondet(2, 'stop_flag given?') == 1 else None
     ready_flag = Opaque('ready_flag')
     in_main = vc.nondet(2, 'running in the main thread?') == 1
-    flags, made, tasks_made = [], [], []
+    given = vc.nondet(2, 'collaborators: omitted (None, as kopf.run() does by default) / given') == 1
+    flags, made, tasks_made, futures = [], [], [], []
 
     class Event:
         def __init__(self):
@@ -371,36 +416,66 @@ def U1(vc):
         return note_task('guarded', coro, flag, dict(kw, name=name))
 
     async def sleep(d):
+        vc.emit('suspension')
         await suspend('asyncio.sleep')
-    loop = Opaque('loop', add_signal_handler=lambda *a: vc.emit('signal-handler', a))
+
+    def add_signal_handler(sig, cb, *args):
+        if not in_main:
+            raise RuntimeError('set_wakeup_fd only works in main thread of the main interpreter')
+        vc.emit('signal-handler', sig, cb, args)
+
+    def future():
+        f = Opaque('signal_flag')
+        f.set_result = lambda *a: None
+        futures.append(f)
+        return f
+    loop = Opaque('loop', add_signal_handler=add_signal_handler)
     main_thread = Opaque('main-thread')
-    peering_settings = Opaque('settings.peering')
-    settings = Opaque('settings', peering=peering_settings)
-    idx = Opaque('registry._indexing', get_all_handlers=lambda: ())
-    registry = Opaque('registry', _indexing=idx)
-    indexers = Opaque('indexers', indices=Opaque('indices'), ensure=lambda hs: vc.emit('indexers.ensure'))
-    insights = Opaque('insights', backbone=Opaque('backbone'), revised=Opaque('revised'))
+    UNTOUCHED = Opaque('untouched')
+
+    def collaborators(tag):
+        """One full set of collaborators (the given ones / the defaults the documented factories make)."""
+        ps = Opaque(f'{tag}.settings.peering')
+        for attr in ('clusterwide', 'mandatory', 'name', 'standalone', 'priority'):
+            setattr(ps, attr, UNTOUCHED)
+        handlers = Opaque(f'{tag}.all-indexing-handlers')
+        ixs = Opaque(f'{tag}.indexers', indices=Opaque(f'{tag}.indices'))
+        ixs.ensure = lambda hs: vc.emit('indexers.ensure', ixs, hs)
+        return dict(
+            lifecycle=Opaque(f'{tag}.lifecycle'), indexers=ixs, settings=Opaque(f'{tag}.settings', peering=ps),
+            registry=Opaque(f'{tag}.registry', _indexing=Opaque(f'{tag}.registry._indexing', get_all_handlers=lambda: handlers), _all=handlers),
+            memories=Opaque(f'{tag}.memories'), identity=Opaque(f'{tag}.identity'), vault=Opaque(f'{tag}.vault'), memo=Opaque(f'{tag}.memo'),
+            insights=Opaque(f'{tag}.insights', backbone=Opaque(f'{tag}.backbone'), revised=Opaque(f'{tag}.revised')))
+    G, D = collaborators('given'), collaborators('default')
     stubs = {k: mk(v) for k, v in FACTORIES.items()}
     stubs.update({
         'asyncio.get_running_loop': lambda: loop, 'asyncio.Queue': lambda: Opaque('queue'),
-        'asyncio.Future': lambda: Opaque('signal_flag', set_result=lambda *a: None), 'asyncio.Event': Event,
+        'asyncio.Future': future, 'asyncio.Event': Event,
         'asyncio.create_task': create_task, 'asyncio.sleep': sleep,
         'aiotasks.create_guarded_task': create_guarded_task,
         'aiotoggles.ToggleSet': lambda fn: Opaque('operator_paused'),
         'aiovalues.Container': lambda: Opaque('container', changed=Opaque('changed')),
-        'auth.vault_var': Opaque('vault_var', set=lambda v: None), 'posting.settings_var': Opaque('settings_var', set=lambda v: None),
+        'auth.vault_var': Opaque('vault_var', set=lambda v: vc.emit('vault_var.set', v)),
+        'posting.settings_var': Opaque('settings_var', set=lambda v: vc.emit('settings_var.set', v)),
         'warnings.warn': lambda *a, **kw: None, 'logger': NullLogger(),
         'threading.current_thread': lambda: main_thread if in_main else Opaque('other-thread'),
         'threading.main_thread': lambda: main_thread,
+        # the documented default of every collaborator
+        'lifecycles.get_default_lifecycle': lambda: D['lifecycle'], 'registries.get_default_registry': lambda: D['registry'],
+        'configuration.OperatorSettings': lambda: D['settings'], 'inventory.ResourceMemories': lambda: D['memories'],
+        'indexing.OperatorIndexers': lambda: D['indexers'], 'references.Insights': lambda: D['insights'],
+        'peering.detect_own_id': lambda **kw: D['identity'], 'credentials.Vault': lambda: D['vault'], 'ephemera.Memo': lambda: D['memo'],
     })
     ld = vc.load('kopf._core.reactor.running', 'spawn_tasks', stubs=stubs)
+    A = G if given else dict.fromkeys(G)
+    priority = vc.int('priority') if extras else None
     escaped, result = None, None
     try:
         result = vc.drive(ld.fn(
-            lifecycle=Opaque('lifecycle'), indexers=indexers, registry=registry, settings=settings, memories=Opaque('memories'),
-            insights=insights, identity=Opaque('identity'), standalone=True if extras else None, priority=vc.int('priority') if extras else None,
+            lifecycle=A['lifecycle'], indexers=A['indexers'], registry=A['registry'], settings=A['settings'], memories=A['memories'],
+            insights=A['insights'], identity=A['identity'], standalone=True if extras else None, priority=priority,
             peering_name='peering' if extras else None, liveness_endpoint=liveness, clusterwide=clusterwide, namespaces=namespaces,
-            namespace=namespace, stop_flag=stop_flag, ready_flag=ready_flag, vault=Opaque('vault'), memo=Opaque('memo'), _command=command))
+            namespace=namespace, stop_flag=stop_flag, ready_flag=ready_flag, vault=A['vault'], memo=A['memo'], _command=command))
     except TypeError as e:
         escaped = e
     vc.canary('canary.never_rejects', escaped is None)
@@ -442,6 +517,84 @@ def U1(vc):
     fnames = [c.fname for c in made] + (['the-command'] if command is not None else [])
     vc.ensure('lifecycle_tasks_present', all(fnames.count(n) == 1 for n in ('stop_flag_checker', 'daemon_killer', 'ultimate_termination')))
     vc.ensure('lifecycle_tasks_present', ('the-command' in fnames) != ('orchestrator' in fnames))
+    # -- the activities the other properties live in
+    for n in REQUIRED:
+        vc.ensure('operator_tasks_present', fnames.count(n) == 1)
+    reporters = [c for c in made if c.fname == 'health_reporter']
+    vc.canary('canary.always_health_reporter', len(reporters) == 1)
+    if liveness is None:
+        vc.ensure('operator_tasks_present', not reporters)
+    elif liveness:
+        vc.ensure('operator_tasks_present', len(reporters) == 1 and reporters[0].kw.get('endpoint') == liveness)
+    # -- collaborators: the given ones, else one common non-None default (THE default registry / lifecycle)
+    def flat(c):
+        kw = dict(c.kw)
+        for v in c.kw.values():
+            if isinstance(v, functools.partial):
+                kw.update(v.keywords)
+        return kw
+    seen = {}
+    for c in made:
+        for k, v in flat(c).items():
+            k = 'memo' if k == 'memobase' else k
+            if k in G:
+                seen.setdefault(k, []).append(v)
+    for k, vs in seen.items():
+        vc.ensure('collaborators_given_or_default', all(v is not None and v is vs[0] for v in vs))
+        if given:
+            vc.ensure('collaborators_given_or_default', vs[0] is G[k])
+        elif k in ('registry', 'lifecycle'):
+            vc.ensure('collaborators_given_or_default', vs[0] is D[k])
+    vc.ensure('collaborators_given_or_default', {'registry', 'settings', 'vault', 'memo', 'memories', 'insights'} <= set(seen))
+    eff = {k: vs[0] for k, vs in seen.items()}
+    # -- the context variables, before the first task
+    names = names_of(vc.trace)
+    i_task = first(names, 'task')
+    for var, k in (('vault_var.set', 'vault'), ('settings_var.set', 'settings')):
+        sets = [(i, ev[1]) for i, ev in enumerate(vc.trace) if ev[0] == var]
+        vc.ensure('context_set_before_tasks', len(sets) >= 1 and all(v is eff.get(k) and v is not None for _, v in sets)
+                  and i_task is not None and sets[0][0] < i_task)
+    # -- the indices exist before anything runs
+    ens = [(i, ev) for i, ev in enumerate(vc.trace) if ev[0] == 'indexers.ensure']
+    i_susp = first(names, 'suspension')
+    vc.ensure('indices_prepared_before_startup', len(ens) >= 1 and (i_susp is None or ens[0][0] < i_susp))
+    if ens:
+        ixs, hs = ens[0][1][1], ens[0][1][2]
+        vc.ensure('indices_prepared_before_startup', eff.get('registry') is not None and hs is getattr(eff.get('registry'), '_all', None))
+        vc.ensure('indices_prepared_before_startup', 'indexers' not in eff or eff['indexers'] is ixs)
+        for c in made:
+            if 'indices' in flat(c):
+                vc.ensure('indices_prepared_before_startup', flat(c)['indices'] is ixs.indices)
+    # -- arguments mapped into settings.peering; the effective scope
+    eff_ns = namespaces if namespaces else ([namespace] if namespace else [])
+    eff_cw = Or(clusterwide, not eff_ns)
+    vc.canary('canary.always_clusterwide', eff_cw)
+    st = eff.get('settings')
+    if st is G['settings'] or st is D['settings']:
+        ps = st.peering
+        vc.ensure('scope_reaches_observer', ps.clusterwide is not UNTOUCHED)
+        if ps.clusterwide is not UNTOUCHED:
+            vc.ensure('scope_reaches_observer', Iff(ps.clusterwide, eff_cw))
+        if extras:
+            vc.ensure('peering_settings_from_arguments', ps.name == 'peering' and ps.mandatory is True
+                      and ps.standalone is True and ps.priority is priority)
+        else:
+            vc.ensure('peering_settings_from_arguments', ps.name is UNTOUCHED and ps.mandatory is UNTOUCHED
+                      and ps.standalone is UNTOUCHED and ps.priority is UNTOUCHED)
+    for c in made:
+        if c.fname == 'namespace_observer':
+            vc.ensure('scope_reaches_observer', Iff(c.kw.get('clusterwide'), eff_cw))
+            vc.ensure('scope_reaches_observer', list(c.kw.get('namespaces')) == eff_ns)
+    # -- OS signals
+    hooks = [ev for ev in vc.trace if ev[0] == 'signal-handler']
+    checker = [c for c in made if c.fname == 'stop_flag_checker']
+    if in_main and checker:
+        sf = checker[0].kw.get('signal_flag')
+        vc.ensure('signals_hooked_in_main_thread_only', any(f is sf for f in futures) and checker[0].kw.get('stop_flag') is stop_flag)
+        for sig in (signal.SIGINT, signal.SIGTERM):
+            vc.ensure('signals_hooked_in_main_thread_only', any(ev[1] == sig and ev[2] is sf.set_result and ev[3] == (sig,) for ev in hooks))
+    else:
+        vc.ensure('signals_hooked_in_main_thread_only', not hooks)
     return ('spawned', len(tasks_made), sorted(exempt_seen))
 
 
@@ -780,7 +933,10 @@ def S4(vc):
         for t in done:
             t._done = True
         st['head'] = (set(done), set(pending))
-        return {'done_ever': done, 'pending': pending, 'iterations': vc.int('iterations')}
+        new = {'done_ever': done, 'pending': pending}
+        if 'iterations' in loc:        # the round counter (used for log texts only): arbitrary -- but only if it is bound at the
+            new['iterations'] = vc.int('iterations')    # loop's entry: havocking must not bind a name the code left unbound
+        return new
 
     def inv(loc):
         st['phase'] += 1
